@@ -136,14 +136,65 @@ Proof. vm_compute. split; reflexivity. Qed.
 
 (* c07_loops_isolated: the same prompt sent to two objects (AND and OR) is
    evaluated by each; the second object's reply is not the first one's *)
+Definition bc_off := mkBcfg false 5 60.
+Definition bc_2 := mkBcfg true 2 10.        (* opens at the 2nd failure, probes 10 later *)
+
 Example ex_two_loops :
   map (fun x => match x with
-                | (b, (_, Some r, _)) => (b, r_cached r, c_blocked (r_core r))
+                | (b, ((_, Some r, _), _)) => (b, r_cached r, c_blocked (r_core r))
                 | (b, _) => (b, false, false) end)
-      (sys_trace hash_x (fun p => p) cf_and cf_or
+      (sys_trace hash_x (fun p => p) cf_and cf_or bc_off bc_2
              [(false, OReq (mkReq [97] 0 VExecute VPermit)); (true, OReq (mkReq [97] 1 VBlock VBlock));
               (false, OReq (mkReq [97] 2 VBlock VBlock)); (true, OReq (mkReq [97] 3 VExecute VPermit))])
   = [(false, false, false); (true, false, true); (false, true, false); (true, true, true)].
+Proof. vm_compute. reflexivity. Qed.
+
+(* c07_breaker_only_rejects / c07_breaker_pass_only_if: prompt "a" is approved
+   and cached (0); two agent exceptions on "b" open the breaker (1, 2); while it
+   is open even the cached, approved "a" is rejected (3, 4: CIRCUIT_OPEN, nobody
+   asked, cache still 1 entry); once the recovery time has passed a request is
+   admitted as the probe (5: fresh, passes, closes the breaker), and from then
+   on requests are admitted (6).  The admitted history is the original one
+   without requests 3 and 4. *)
+Definition hist_brk : list op :=
+  [ OReq (mkReq [97] 0 VExecute VPermit); OReq (mkReq [98] 1 VRaised VPermit);
+    OReq (mkReq [98] 2 VExecute VRaised); OReq (mkReq [97] 3 VExecute VPermit);
+    OReq (mkReq [97] 4 VBlock VBlock);    OReq (mkReq [99] 12 VExecute VPermit);
+    OReq (mkReq [98] 13 VBlock VBlock) ].
+
+Example ex_breaker :
+  let cf := mkConfig LAnd [89] true 100 1000 in
+  let tr := betrace hash_x (fun p => p) cf bc_2 hist_brk in
+  map snd tr = [true; true; true; false; false; true; true] /\
+  map (fun x => match x with ((_, Some r, n), _) => (action_code (c_action (r_core r)), r_cached r, r_exec_called r, n)
+                           | _ => (-1, false, false, 0%nat) end) tr
+    = [(0, false, true, 1%nat); (4, false, true, 1%nat); (4, false, true, 1%nat); (5, false, false, 1%nat);
+       (5, false, false, 1%nat); (0, false, true, 2%nat); (1, false, true, 3%nat)] /\
+  admitted hash_x (fun p => p) cf bc_2 hist_brk
+    = [ OReq (mkReq [97] 0 VExecute VPermit); OReq (mkReq [98] 1 VRaised VPermit);
+        OReq (mkReq [98] 2 VExecute VRaised); OReq (mkReq [99] 12 VExecute VPermit);
+        OReq (mkReq [98] 13 VBlock VBlock) ].
+Proof. vm_compute. repeat split; reflexivity. Qed.
+
+(* the probe after the recovery time can be a cache hit (the breaker stays
+   half-open), and reset_circuit_breaker() re-admits at once *)
+Example ex_breaker_probe_and_reset :
+  let cf := mkConfig LOr [89] true 100 1000 in
+  map (fun x => match x with ((_, Some r, _), adm) => (adm, r_cached r, c_blocked (r_core r))
+                           | (_, adm) => (adm, false, false) end)
+      (betrace hash_x (fun p => p) cf (mkBcfg true 1 10)
+         [ OReq (mkReq [97] 0 VExecute VBlock); OReq (mkReq [98] 1 VRaised VPermit);
+           OReq (mkReq [97] 2 VBlock VBlock);   OReq (mkReq [97] 11 VBlock VBlock);
+           OReq (mkReq [98] 12 VRaised VRaised); OReq (mkReq [97] 13 VBlock VBlock);
+           OReset; OReq (mkReq [97] 14 VBlock VBlock) ])
+  = [(true, false, false); (true, false, true); (false, false, true); (true, true, false);
+     (true, false, true); (false, false, true); (true, false, false); (true, true, false)].
+Proof. vm_compute. reflexivity. Qed.
+
+(* c07_breaker_disabled is not vacuous the other way: the same history with the
+   breaker disabled admits everything *)
+Example ex_breaker_disabled :
+  forallb snd (betrace hash_x (fun p => p) (mkConfig LAnd [89] true 100 1000) (mkBcfg false 2 10) hist_brk) = true.
 Proof. vm_compute. reflexivity. Qed.
 
 (* The injectivity hypothesis is needed: with a cache key that collides on
